@@ -92,6 +92,9 @@ def gen_port(w, cfg, platform):
         x = w.random()
         if cfg.get("port_zero") and x < 0.2:
             return 0
+        if cfg.get("version_ports") and w.random() < 0.4:
+            # ports whose names differ between platforms / software versions
+            return w.choice([135, 15001, 15002, 521, 3949, 443])
         if x < 0.25:
             return w.choice(BOUNDARY_PORTS)
         if x < 0.8:
